@@ -126,3 +126,52 @@ func TestGovcReplay(t *testing.T) {
 		return "object", "TestGovcReplay", src, true
 	}
 }
+
+func init() {
+	replayBuilders["config.postprocess"] = func(vals map[string]string, sm *oblSummary) (string, string, string, bool) {
+		hl, ok1 := ival(vals, "hooklen")
+		cs, ok2 := ival(vals, "cache")
+		cx, ok3 := ival(vals, "ctx")
+		to, ok4 := ival(vals, "timeout")
+		if !(ok1 && ok2 && ok3 && ok4) || hl < 0 || hl > 16 {
+			return "", "", "", false
+		}
+		hook := "["
+		for i := int64(0); i < hl; i++ {
+			if i > 0 {
+				hook += ", "
+			}
+			hook += fmt.Sprintf("%q", fmt.Sprintf("arg%d", i))
+		}
+		hook += "]"
+		toml := fmt.Sprintf("[media]\nhook = %s\n[network]\ncache_size = %d\npreload_amount = %d\ntimeout_seconds = %d\n", hook, cs, cx, to)
+		src := fmt.Sprintf(`package config
+
+import (
+	"os"
+	"path/filepath"
+	"testing"
+	"time"
+)
+
+// counterexample found by the solver for %s: a configuration file that is accepted although it is not safe to run with
+func TestGovcReplay(t *testing.T) {
+	file := filepath.Join(t.TempDir(), "config.toml")
+	if err := os.WriteFile(file, []byte(%q), 0o644); err != nil {
+		t.Fatal(err)
+	}
+	c, err := parse(file)
+	if err != nil {
+		t.Skipf("rejected by the parser: %%v", err)
+	}
+	if err := postprocess(c); err != nil {
+		return // rejected with a diagnostic: fine
+	}
+	if len(c.Media.Hook) < 1 || c.Network.CacheSize < 1 || c.Network.Context < 0 || c.Network.Timeout < 0 || c.Network.Timeout %% time.Second != 0 {
+		t.Fatalf("accepted configuration is not safe: hook=%%v cache_size=%%d preload_amount=%%d timeout=%%v", c.Media.Hook, c.Network.CacheSize, c.Network.Context, c.Network.Timeout)
+	}
+}
+`, sm.Name, toml)
+		return "config", "TestGovcReplay", src, true
+	}
+}
